@@ -62,11 +62,13 @@ func checkC13(h *harness.H, ci interface{}) *harness.Failure {
 		key = c.Text
 	}
 	h.S.Eval(key)
+	// all three modes, also for programs with contraction: in the non-polarized mode those may
+	// crash or deadlock (known finding N6), which is ignored here - only race reports count
 	modes := []int{0, 1, 2}
-	if c.Contraction {
-		modes = []int{0, 1}
-	}
 	cfgs := cfgMatrix(c.Seed, modes, 1)
+	if c.Contraction {
+		cfgs = append(cfgs, runCfg{Mode: 2, Monitor: true, Procs: 4, Yield: c.Seed%1000 + 1})
+	}
 	for i := range cfgs {
 		if cfgs[i].Procs < 4 {
 			cfgs[i].Procs = 4
@@ -75,12 +77,16 @@ func checkC13(h *harness.H, ci interface{}) *harness.Failure {
 	// the CLI / webserver entry point as well
 	cfgs = append(cfgs, runCfg{Mode: 0, Procs: 4, Entry: "init", Monitor: c.Seed%2 == 0})
 	for _, cfg := range cfgs {
-		req := &wire.Req{Op: "run", Text: c.Text, Mode: cfg.Mode, Monitor: cfg.Monitor, Procs: cfg.Procs, YieldSeed: cfg.Yield, Entry: cfg.Entry, TimeoutMs: 20000, PostAPI: true}
+		req := &wire.Req{Op: "run", Text: c.Text, Mode: cfg.Mode, Monitor: cfg.Monitor, Procs: cfg.Procs, YieldSeed: cfg.Yield, Entry: cfg.Entry, TimeoutMs: 5000, PostAPI: true}
 		res := h.Call(1, req, 60*time.Second)
 		h.S.Count("runs:" + modeName[cfg.Mode] + cfg.Entry)
 		if res.Outcome != pool.OK {
 			h.S.Count("run_" + res.Outcome.String())
 			h.Worker(1).RaceReports()
+			if cfg.Mode == 2 && c.Contraction {
+				h.S.Count("np_contraction_failure_ignored(N6)")
+				continue
+			}
 			return &harness.Failure{Inconclusive: true, Msg: "run " + res.Outcome.String()}
 		}
 		rep := h.Worker(1).RaceReports()
